@@ -79,6 +79,7 @@ type c07Case struct {
 	Coalesce []int `json:"coalesce,omitempty"` // message indices i whose segment is merged with message i+1's
 	Timeouts []int `json:"timeouts,omitempty"` // segment indices before which a read timeout is injected
 	Bufs     []int `json:"bufs"`               // caller buffer sizes, cycled
+	Writes   bool  `json:"writes,omitempty"`   // the application writes (a response / an event) on the connection after every caller Read
 }
 
 var c07Secret = [32]byte{9, 8, 7, 6, 5, 4, 3, 2, 1}
@@ -151,6 +152,9 @@ func c07Exec(c *fw.Ctx, cas c07Case) {
 	if len(cas.Timeouts) > 0 {
 		dev += "timeout+"
 	}
+	if cas.Writes {
+		dev += "writes+"
+	}
 	if dev == "" {
 		dev = "default"
 	}
@@ -185,6 +189,10 @@ func c07Exec(c *fw.Ctx, cas c07Case) {
 		}
 		got = append(got, buf[:n]...)
 		before := len(got) - n
+		if cas.Writes {
+			// an event notification or a response is written between two reads (possibly of the same frame)
+			conn.Write(pat(40+pi%3*600, byte(pi)))
+		}
 		if !bytes.HasPrefix(plain, got) {
 			fail("bytes-differ", fmt.Sprintf("after %d bytes the data returned differs from what was sent (lost, duplicated or reordered bytes)", before))
 			return
@@ -439,6 +447,7 @@ func c07Run(c *fw.Ctx) {
 	for _, s := range seqs {
 		for _, p := range c07Policies {
 			do(c07Case{Lens: s, Bufs: p})
+			do(c07Case{Lens: s, Bufs: p, Writes: true})
 		}
 	}
 	// deviation bound 1
@@ -454,6 +463,9 @@ func c07Run(c *fw.Ctx) {
 			if len(s) == 1 || th || (s[0] <= 1025 && s[1] <= 1025) {
 				for x := 1; x < total; x++ { // split at every byte offset
 					do(c07Case{Lens: s, Cuts: []int{x}, Bufs: p})
+					if len(s) == 1 && (p[0] < 4096 || th) {
+						do(c07Case{Lens: s, Cuts: []int{x}, Bufs: p, Writes: true})
+					}
 				}
 			}
 			nseg := len(s)
@@ -518,7 +530,7 @@ func init() {
 	fw.Register(&fw.Check{
 		ID:    "C07",
 		Level: "model_checking",
-		Rule:  "deviation-bounded exhaustive exploration of network behaviours for a real hap.Connection over a scripted net.Conn: message sequences of length 1–2 (thorough 1–3) over lengths {1,2,17,1023,1024,1025,2048,4095,4096,4097} × 6 caller-buffer policies (1, 7, 1024, 4096, 8192, net/http's 1-then-4096); 0 deviations = one segment per message; deviations = split at every byte offset, coalesce adjacent segments, read timeout before a segment; bound 1 completely, bound 2 for split+timeout, coalesce+split (thorough: all length pairs; every pair of splits for messages ≤1025). Plus the session-switch scenarios: every placement of 1–3 Read calls (blocked until data or aborted by a timeout) relative to the world steps install-cryptographer / write-response / first-ciphertext-arrives: the response must reach the wire in plaintext and the request must be delivered as its plaintext. Oracle per execution: exact byte equality, no EOF/error/close while the peer sends well-formed frames, and the promptness invariant (the network is asked for more only when every completely received frame has been handed to the caller). states = executions, distinct_nontrivial = distinct (deviation kind, message count, number of underlying reads) classes",
+		Rule:  "deviation-bounded exhaustive exploration of network behaviours for a real hap.Connection over a scripted net.Conn: message sequences of length 1–2 (thorough 1–3) over lengths {1,2,17,1023,1024,1025,2048,4095,4096,4097} × 6 caller-buffer policies (1, 7, 1024, 4096, 8192, net/http's 1-then-4096); 0 deviations = one segment per message; deviations = split at every byte offset, coalesce adjacent segments, read timeout before a segment, the application writing on the connection between caller reads; bound 1 completely, bound 2 for split+timeout, coalesce+split (thorough: all length pairs; every pair of splits for messages ≤1025). Plus the session-switch scenarios: every placement of 1–3 Read calls (blocked until data or aborted by a timeout) relative to the world steps install-cryptographer / write-response / first-ciphertext-arrives: the response must reach the wire in plaintext and the request must be delivered as its plaintext. Oracle per execution: exact byte equality, no EOF/error/close while the peer sends well-formed frames, and the promptness invariant (the network is asked for more only when every completely received frame has been handed to the caller). states = executions, distinct_nontrivial = distinct (deviation kind, message count, number of underlying reads) classes",
 		Run:   c07Run,
 		Replay: func(c *fw.Ctx, raw json.RawMessage) {
 			var sw c07SwitchCase
